@@ -436,7 +436,10 @@ func execC09(c c09Case, x *verifkit.Ctx) *verifkit.Failure {
 		if c.PreSecs > 0 {
 			// after many seconds of contended reads on other keys convergence is slower (worst of 60
 			// runs on the unchanged tree: 0.880 / 0.870): the thresholds of the policy tier apply
-			thRatio, thRes = c09PolicyThetaRatio, c09PolicyThetaResident
+			// (residency at the last instant is noisy after such a previous life - 0.69 was seen on the
+			// unchanged tree under load, and the seeded change this class is for leaves it at 0.74 - so the
+			// hit ratio decides: unchanged tree >= 0.88 in calibration, that change 0.48..0.53)
+			thRatio, thRes = c09PolicyThetaRatio, 0.50
 			verifkit.Extra("longpre_min_hot_ratio_x1000", c09Min("lphr", int64(res.hotRatio*1000)))
 		}
 		if res.hotRatio < thRatio {
